@@ -1,4 +1,5 @@
 """C17 - syntax and evaluation errors point at the statement that causes them."""
+import os
 import random
 import re
 import time
@@ -153,7 +154,35 @@ def one(h, case):
                 key = "position-inside-format-template-is-relative-to-the-template"
             return {"status": "violation", "key": key, "text": text2,
                     "kind": "shift", "detail": det}
+    # the same text built as a file: the type checker runs first and its diagnostic must name the faulty
+    # statement as well (a diagnostic raised at a function definition has no call to list - DESIGN §5/C17)
+    global _DIR, _N
+    if _DIR is None:
+        _DIR = C.scratch_dir("c17")
+    _N += 1
+    path = os.path.join(_DIR, "f%d_%d.ucg" % (os.getpid(), _N))
+    with open(path, "w") as f:
+        f.write(text)
+    rb = h.req({"op": "build", "path": path, "strict": True, "fresh": False})
+    os.unlink(path)
+    ob = P.observed_outcome(rb)
+    if ob[0] == "crash":
+        return {"status": "violation", "key": "crash", "text": text, "kind": "crash", "detail": {"observed": ob}}
+    if ob[0] == "fail":
+        primb, viab = positions(ob[1])
+        if not inside(primb, spans[fault]) and not any(inside(v, spans[fault]) for v in viab):
+            det["build_message"] = ob[1][:500]
+            key = "build:primary-outside-faulty-statement"
+            if "Type error" in ob[1]:
+                key = "checker:diagnostic-at-the-definition-of-an-operand"
+            if in_tpl and primb is not None and primb[0] == 1:
+                key = "position-inside-format-template-is-relative-to-the-template"
+            return {"status": "violation", "key": key, "text": text, "kind": "build-primary", "detail": det}
     return {"status": "ok", "text": text}
+
+
+_DIR = None
+_N = 0
 
 
 # ---------------------------------------------------------------------------
